@@ -69,15 +69,15 @@ class C20(Prop):
             fns.append({'op': 'cpp.function', 'ret': gen_typedesc(rng, False), 'name': rng.choice(NAMES),
                         'params': [gen_param(rng) for _ in range(rng.randint(0, 5))], 'prefix': prefix,
                         'cav': rng.choice(['', '', 'const', 'const', 'volatile', 'const volatile', 'noexcept', 'const noexcept', '&', 'const &&']), 'override': rng.random() < 0.2, 'init': init,
-                        'contents': gen_contents(rng), 'scope': scope})
+                        'contents': gen_contents(rng), 'scope': scope, 'late': rng.choice([0, 0, 1, 2])})
         for _ in range(n // 3):
             init = rng.choice(['', '', 'default', 'delete'])
             mil = [] if init else [rng.choice(['m_a(1)', 'm_b{2 }', 'm_c ("x")']) for _ in range(rng.randint(0, 3))]
             ctors.append({'op': 'cpp.constructor', 'scope': rng.choice(['MyToaster', 'S']), 'explicit': rng.random() < 0.3,
                           'params': [gen_param(rng) for _ in range(rng.randint(0, 4))], 'init': init, 'mil': mil,
-                          'contents': gen_contents(rng)})
+                          'contents': gen_contents(rng), 'late': rng.choice([0, 0, 1])})
             ctors.append({'op': 'cpp.destructor', 'scope': rng.choice(['MyToaster', 'S']), 'override': rng.random() < 0.3,
-                          'init': rng.choice(['', '', 'default']), 'contents': gen_contents(rng)})
+                          'init': rng.choice(['', '', 'default']), 'contents': gen_contents(rng), 'late': rng.choice([0, 0, 1])})
         for _ in range(n // 3):
             contents = [rng.choice(['int a;', '', '  b();', '// c', 'x']) for _ in range(rng.randint(0, 4))]
             blocks.append({'op': 'cpp.struct', 'kw': rng.choice(['struct', 'class']), 'name': rng.choice(['S', 'MyStruct']), 'contents': contents})
@@ -156,15 +156,38 @@ class C20(Prop):
         if op == 'cpp.function':
             scope = Struct(case['scope']) if case.get('scope') else None
             pf = {'': FunctionPrefix.MEMBER_FUNCTION, 'virtual': FunctionPrefix.VIRTUAL, 'static': FunctionPrefix.STATIC}[case['prefix']]
-            f = Function(mk_typedesc(case['ret']), case['name'], [mk_param(p) for p in case['params']], pf,
-                         case['cav'], case['override'], case['init'], case['contents'], scope)
+            if case.get('late'):
+                # a description assembled step by step: constructed with the mandatory fields (and, for `late` = 2,
+                # with another owner), every other field assigned afterwards - dataclass fields are public API
+                f = Function(mk_typedesc(case['ret']), case['name'], prefix=pf,
+                             scope=Struct('Other') if (case['late'] == 2 or pf == FunctionPrefix.VIRTUAL) else None)
+                _ = (f.as_decl, f.as_def)           # rendered once before it is complete
+                f.params = [mk_param(p) for p in case['params']]
+                f.cav, f.override, f.contents, f.scope = case['cav'], case['override'], case['contents'], scope
+                f.initialization = case['init']
+            else:
+                f = Function(mk_typedesc(case['ret']), case['name'], [mk_param(p) for p in case['params']], pf,
+                             case['cav'], case['override'], case['init'], case['contents'], scope)
             return {'decl': f.as_decl, 'def': f.as_def}
         if op == 'cpp.constructor':
-            c = Constructor(Struct(case['scope']), case['explicit'], [mk_param(p) for p in case['params']],
-                            case['init'], list(case['mil']), case['contents'])
+            if case.get('late'):
+                c = Constructor(Struct('Other'))
+                _ = (c.as_decl, c.as_def)
+                c.scope, c.explicit, c.params = Struct(case['scope']), case['explicit'], [mk_param(p) for p in case['params']]
+                c.member_initlist, c.contents = list(case['mil']), case['contents']
+                c.initialization = case['init']
+            else:
+                c = Constructor(Struct(case['scope']), case['explicit'], [mk_param(p) for p in case['params']],
+                                case['init'], list(case['mil']), case['contents'])
             return {'decl': c.as_decl, 'def': c.as_def}
         if op == 'cpp.destructor':
-            d = Destructor(Class(case['scope']), case['override'], case['init'], case['contents'])
+            if case.get('late'):
+                d = Destructor(Class('Other'))
+                _ = (d.as_decl, d.as_def)
+                d.scope, d.override, d.contents = Class(case['scope']), case['override'], case['contents']
+                d.initialization = case['init']
+            else:
+                d = Destructor(Class(case['scope']), case['override'], case['init'], case['contents'])
             return {'decl': d.as_decl, 'def': d.as_def}
         if op == 'cpp.struct':
             tb = TextBlock()
